@@ -401,7 +401,7 @@ class StrategyBase(Node):
         Current price.
         """
         if self.root.stale:
-            self.root.update(self.now, None)
+            self.root.update(self.root.now, None)
         return self._price
 
     @property
@@ -410,7 +410,7 @@ class StrategyBase(Node):
         TimeSeries of prices.
         """
         if self.root.stale:
-            self.root.update(self.now, None)
+            self.root.update(self.root.now, None)
         return self._prices.loc[: self.now]
 
     @property
@@ -419,7 +419,7 @@ class StrategyBase(Node):
         TimeSeries of values.
         """
         if self.root.stale:
-            self.root.update(self.now, None)
+            self.root.update(self.root.now, None)
         return self._values.loc[: self.now]
 
     @property
@@ -428,7 +428,7 @@ class StrategyBase(Node):
         TimeSeries of notional values.
         """
         if self.root.stale:
-            self.root.update(self.now, None)
+            self.root.update(self.root.now, None)
         return self._notl_values.loc[: self.now]
 
     @property
@@ -445,7 +445,7 @@ class StrategyBase(Node):
         TimeSeries of unallocated capital.
         """
         if self.root.stale:
-            self.root.update(self.now, None)
+            self.root.update(self.root.now, None)
         return self._cash.loc[: self.now]
 
     @property
@@ -454,7 +454,7 @@ class StrategyBase(Node):
         TimeSeries of fees.
         """
         if self.root.stale:
-            self.root.update(self.now, None)
+            self.root.update(self.root.now, None)
         return self._fees.loc[: self.now]
 
     @property
@@ -463,7 +463,7 @@ class StrategyBase(Node):
         TimeSeries of flows.
         """
         if self.root.stale:
-            self.root.update(self.now, None)
+            self.root.update(self.root.now, None)
         return self._all_flows.loc[: self.now]
 
     @property
@@ -473,7 +473,7 @@ class StrategyBase(Node):
         """
         if self._bidoffer_set:
             if self.root.stale:
-                self.root.update(self.now, None)
+                self.root.update(self.root.now, None)
             return self._bidoffer_paid
         else:
             raise Exception('Bid/offer accounting not turned on: "bidoffer" argument not provided during setup')
@@ -485,7 +485,7 @@ class StrategyBase(Node):
         """
         if self._bidoffer_set:
             if self.root.stale:
-                self.root.update(self.now, None)
+                self.root.update(self.root.now, None)
             return self._bidoffers_paid.loc[: self.now]
         else:
             raise Exception('Bid/offer accounting not turned on: "bidoffer" argument not provided during setup')
